@@ -167,6 +167,7 @@ func vxH_C05_crashImage() {
 	so.CompactionLevelMaxSegments = 1
 	so.CompactionPercentage = -1
 	noSync := vxChoose(2) == 1
+	inChild := vxChoose(2) == 1
 	store, err := OpenStore(fs.dir, so)
 	vxAssert("open-ok", err == nil)
 	opts := &so.CollectionOptions
@@ -194,7 +195,15 @@ func vxH_C05_crashImage() {
 			po.CompactionConcern = CompactionConcern(vxChoose(3))
 			lastConcern = po.CompactionConcern
 		}
-		s, perr := store.Persist(vxHigher(opts, ents), po)
+		higher := vxHigher(opts, ents)
+		if inChild {
+			// all data lives in a child collection; the top-level
+			// collection never gets a segment
+			cs := higher
+			cs.incarNum = 1
+			higher = &segmentStack{options: opts, refs: 1, childSegStacks: map[string]*segmentStack{"c": cs}}
+		}
+		s, perr := store.Persist(higher, po)
 		vxAssert("persist-ok", perr == nil)
 		s.Close()
 		vxQuiesce()
@@ -205,7 +214,7 @@ func vxH_C05_crashImage() {
 	// is durable
 	reverted := false
 	revertDoneAt := 0
-	if lastConcern == CompactionDisable && vxChoose(2) == 1 {
+	if lastConcern == CompactionDisable && !inChild && vxChoose(2) == 1 {
 		cur, _ := store.Snapshot()
 		prev, perr := store.SnapshotPrevious(cur)
 		vxAssert("previous-ok", perr == nil && prev != nil)
@@ -237,7 +246,18 @@ func vxH_C05_crashImage() {
 	if oerr != nil {
 		return
 	}
-	got, gerr := coll2.Get(kb, ReadOptions{})
+	var got []byte
+	var gerr error
+	if inChild {
+		snap2, _ := coll2.Snapshot()
+		if cs, _ := snap2.ChildCollectionSnapshot("c"); cs != nil {
+			got, gerr = cs.Get(kb, ReadOptions{})
+			cs.Close()
+		}
+		snap2.Close()
+	} else {
+		got, gerr = coll2.Get(kb, ReadOptions{})
+	}
 	vxAssert("get-ok", gerr == nil)
 	vxObserveBytes("get", got)
 	is0 := vxGotIs(got, vxRefGet(K))
